@@ -267,47 +267,98 @@ func runC06(c *RunCtx) {
 	g := &Gen{t: t, cfg: drawCfg(t, c.Thorough)}
 	name := pickType(t, 4)
 	var m any
+	absent := false
 	if c.Thorough && t.Chance(1, 3000) {
 		m = jumboFrame(g, 8_500_000+t.Intn(1000))
 		name = "szse.SzseBinary"
 		c.Probe("jumbo-frame")
 	} else {
+		if schema.Types[name].Table != "" && t.Intn(8) == 0 {
+			// body / extension left out by the caller: the encoder fills it in from the discriminator
+			g.cfg.NilBody = true
+			absent = true
+			c.Probe("absent-body")
+		}
 		m = g.Value(name)
+		g.cfg.NilBody = false
 	}
 	c.Count("type."+name, 1)
 	c.LogValue("MESSAGE "+name, m)
+	pre := Clone(m)
 	_, ref, ok := refEncode(m)
 	if !ok {
 		c.Probe("skip.trivial-encode-failed")
 		return
 	}
 	c.Logf("TRIVIAL-HISTORY ENCODING %s", hexClip(ref, 96))
+	// a second message for later in the run, and its trivial-history encoding, are fixed NOW, before
+	// anything else happens in the process: a relative of the first (same type and discriminator,
+	// texts and lists cut or extended), a fresh value of the same type, or another type
+	var m2 any
+	var ref2 []byte
+	name2 := ""
+	if t.Chance(1, 2) {
+		switch t.Intn(3) {
+		case 0:
+			name2 = name
+			m2 = variantOf(pre, t.Bulk())
+		case 1:
+			name2 = name
+			if absent {
+				g.cfg.NilBody = true
+			}
+			m2 = g.Value(name2)
+			g.cfg.NilBody = false
+		default:
+			name2 = pickType(t, 5)
+			m2 = g.Value(name2)
+		}
+		var ok2 bool
+		if _, ref2, ok2 = refEncode(m2); !ok2 {
+			m2 = nil
+		}
+	}
+	if cfg, restore := registryConfig(c, t); cfg != "" {
+		// a configuration the encoders support: fewer checksum services registered.  The reference
+		// encodings are taken again under the same configuration.
+		defer restore()
+		c.Logf("CONFIGURATION %s", cfg)
+		if _, ref, ok = refEncode(pre); !ok {
+			return
+		}
+		if m2 != nil {
+			if _, ref2, ok = refEncode(m2); !ok {
+				m2 = nil
+			}
+		}
+	}
 	h := drawHistory(c, g, len(ref), name)
 	buf := h.build()
 	c.Logf("HISTORY %s (unread=%d)", h.desc, h.unread())
 	expect := cloneBytes(buf.Bytes())
+	curName := name
 	check := func(step string, obj any, want []byte) {
 		before := len(expect)
 		r := tryEncode(obj, buf)
 		if r.Panic != nil {
-			c.Fail("C06/panic-under-history", name, "%s: Encode panicked under history %s although it succeeds into an empty buffer: %v", step, h.desc, r.Panic)
+			c.Fail("C06/panic-under-history", curName, "%s: Encode panicked under history %s although it succeeds into an empty buffer: %v", step, h.desc, r.Panic)
 			return
 		}
 		if r.Err != nil {
-			c.Fail("C06/error-under-history", name, "%s: Encode returned %v under history %s although it succeeds into an empty buffer", step, r.Err, h.desc)
+			c.Fail("C06/error-under-history", curName, "%s: Encode returned %v under history %s although it succeeds into an empty buffer", step, r.Err, h.desc)
 			return
 		}
 		after := buf.Bytes()
 		c.T.ObserveBytes(after[min(before, len(after)):])
 		c.Oracle("prior-bytes-unchanged")
 		if len(after) < before || !bytes.Equal(after[:before], expect) {
-			c.Fail("C06/prior-bytes-changed", name+":"+h.sig(), "%s: bytes already in the buffer changed (history %s): had %s, now %s", step, h.desc, hexClip(expect, 64), hexClip(after[:min(before, len(after))], 64))
+			c.Fail("C06/prior-bytes-changed", curName+":"+h.sig(), "%s: bytes already in the buffer changed (history %s): had %s, now %s", step, h.desc, hexClip(expect, 64), hexClip(after[:min(before, len(after))], 64))
 			return
 		}
 		c.Oracle("appended-equals-trivial")
 		app := after[before:]
 		if !bytes.Equal(app, want) {
-			c.Fail("C06/appended-differs", name+":"+h.sig(), "%s of %s under history %s appended %s, but into an empty buffer the same value encodes to %s (first difference at byte %d of %d/%d)", step, name, h.desc, hexClip(app, 64), hexClip(want, 64), firstDiff(app, want), len(app), len(want))
+			c.Fail("C06/appended-differs", curName+":"+h.sig(), "%s of %s under history %s appended %s, but into an empty buffer the same value encodes to %s (first difference at byte %d of %d/%d)", step, curName, h.desc, hexClip(app, 64), hexClip(want, 64), firstDiff(app, want), len(app), len(want))
 			return
 		}
 		expect = append(expect, want...)
@@ -319,19 +370,27 @@ func runC06(c *RunCtx) {
 		c.Fire("hist.reencode")
 		check(fmt.Sprintf("re-encode #%d", i+1), m, ref)
 	}
-	if t.Chance(1, 3) {
-		name2 := pickType(t, 5)
-		m2 := g.Value(name2)
-		if _, ref2, ok := refEncode(m2); ok {
-			c.Fire("hist.batch")
-			c.LogValue("SECOND MESSAGE "+name2, m2)
-			name = name2
-			check("encode of second message", m2, ref2)
+	if t.Intn(4) == 0 {
+		// the caller goes on working with its message object (everything reachable from it,
+		// including parts the encoder filled in) and sends it again
+		if n := mutateInPlace(reflect.ValueOf(m).Elem(), t.Bulk()); n > 0 {
+			c.Fire("app.mutate")
+			if _, refm, okm := refEncode(m); okm {
+				check("encode after the caller changed its message", m, refm)
+			} else {
+				tryEncode(m, &bytes.Buffer{})
+			}
 		}
+	}
+	if m2 != nil {
+		c.Fire("hist.batch")
+		c.LogValue("SECOND MESSAGE "+name2, m2)
+		curName = name2
+		check("encode of second message", m2, ref2)
 	}
 	c.Oracle("buffer-is-concatenation")
 	if !bytes.Equal(buf.Bytes(), expect) {
-		c.Fail("C06/not-concatenation", name+":"+h.sig(), "final buffer differs from the concatenation of the individual encodings")
+		c.Fail("C06/not-concatenation", curName+":"+h.sig(), "final buffer differs from the concatenation of the individual encodings")
 	}
 }
 
@@ -399,11 +458,57 @@ func runFrame(c *RunCtx, prop string) {
 	} else if geom.SumField != "" && getBits(frameField(m, geom.SumField)) != 0 {
 		c.Fire("hist.stale")
 	}
+	if prop == "C04" {
+		if cfg, restore := registryConfig(c, t); cfg != "" {
+			defer restore()
+			c.Logf("CONFIGURATION %s", cfg)
+		}
+	}
 	// trivial history first
 	refObj, ref, ok := refEncode(m)
 	if !ok {
 		c.Probe("skip.trivial-encode-failed")
 		return
+	}
+	if bodyKind != "jumbo" && t.Intn(8) == 0 {
+		// numeric coincidence: a plain header field that happens to hold the frame's body length or
+		// checksum in one of its halves (a sequence number whose upper half equals the length ...)
+		v0 := geom.verifyFrame(ref)
+		var cands []reflect.Value
+		rvm := reflect.ValueOf(m).Elem()
+		ts := schemaOf(name)
+		for i := range ts.Fields {
+			f := &ts.Fields[i]
+			if f.Kind == "num" && f.Computed == "" && f.Name != ts.Discriminator {
+				cands = append(cands, fieldOf(rvm, f.Name))
+			}
+		}
+		if len(cands) > 0 && !v0.ShortFrame {
+			fv := cands[t.Intn(len(cands))]
+			L := uint64(v0.WantLen)
+			if prop == "C05" && t.Intn(2) == 0 {
+				L = uint64(v0.WantSum)
+			}
+			r := t.Bits()
+			var nv uint64
+			switch t.Intn(5) {
+			case 0:
+				nv = L
+			case 1:
+				nv = L<<32 | r&0xFFFFFFFF
+			case 2:
+				nv = r<<32 | L
+			case 3:
+				nv = L << 16
+			default:
+				nv = L<<32 | L
+			}
+			setBits(fv, nv)
+			c.Probe("numeric-coincidence-with-computed-field")
+			if refObj, ref, ok = refEncode(m); !ok {
+				return
+			}
+		}
 	}
 	verify := func(step, hsig, hdesc string, obj any, a []byte) {
 		v := geom.verifyFrame(a)
